@@ -183,6 +183,40 @@ theorem nbhd_false_spec (nb : α → List α) (r : Nat) (c c' : α) :
       · exact ⟨hne, n, hn, (nbhd_true_spec nb r n c').mpr h⟩
 
 
+
+/-! ### "within r hops" as paths -/
+
+/-- `p` is a walk along connections from `c` to `c'` (listing the cells after `c`) -/
+def IsPath (nb : α → List α) : α → List α → α → Prop
+  | c, [], c' => c' = c
+  | c, n :: p, c' => n ∈ nb c ∧ IsPath nb n p c'
+
+omit [DecidableEq α] in
+theorem reach_iff_path (nb : α → List α) (r : Nat) (c c' : α) :
+    Reach nb r c c' ↔ ∃ p : List α, p.length ≤ r ∧ IsPath nb c p c' := by
+  induction r generalizing c with
+  | zero =>
+    simp only [Reach]
+    constructor
+    · intro h; exact ⟨[], by simp, h⟩
+    · rintro ⟨p, hp, h⟩
+      cases p with
+      | nil => exact h
+      | cons _ _ => simp at hp
+  | succ r ih =>
+    simp only [Reach]
+    constructor
+    · rintro (h | ⟨n, hn, h⟩)
+      · exact ⟨[], by simp, h⟩
+      · obtain ⟨p, hp, hpath⟩ := (ih n).mp h
+        exact ⟨n :: p, by simp; omega, hn, hpath⟩
+    · rintro ⟨p, hp, h⟩
+      cases p with
+      | nil => exact Or.inl h
+      | cons n p =>
+        obtain ⟨hn, hpath⟩ := h
+        exact Or.inr ⟨n, hn, (ih n).mpr ⟨p, by simp at hp; omega, hpath⟩⟩
+
 /-! ### the memo tables are transparent -/
 
 theorem assocGet_cons {β : Type} (k : α) (v : β) (m : List (α × β)) (k' : α) :
